@@ -192,6 +192,15 @@ def gen_cases(seed, tier):
                 bnd += [d, b'*.' + d[2:] if len(d) > 2 else d, d[:-1] + b'.', d.replace(b'.', b'-')]
     bnd += [b'', b'a', b'.', b'*', b'a.', b'.a', b'ab', b'*.', b'.*', b'a.b', b'*.a', b'a.*', b'*a.', b'**.a',
             b'*.*.a', b'b*.a', b'*b.a', b'*..a', b'*.a.', b'*.a.b', b'a.b.c', b'-.-', b'0.0', b'a-.b', b'-a.b']
+    # domains made of numeric labels only (they look like addresses; the rule knows letters, digits, '-' and '.' only)
+    nl = [b'0', b'1', b'9', b'10', b'127', b'255', b'256', b'01']
+    for k in (2, 3, 4, 5):
+        for t in (itertools.product(nl, repeat=k) if k <= 3 else ([rng.choice(nl) for _ in range(k)] for _ in range(120))):
+            d = b'.'.join(t)
+            bnd.append(d)
+            if rng.randrange(4) == 0:
+                bnd.append(b'*.' + d)
+    bnd += [b'0.0.0.0', b'10.0.0.1', b'192.168.1.1', b'255.255.255.255', b'1.2.3.4.5', b'127.1', b'*.10.0.0.1', b'1.2.3.4a', b'a.1.2.3.4']
     for w in (0, 1):
         for b in batched(bnd, 64):
             cases.append(vline(w, b))
